@@ -4,6 +4,7 @@ import (
 	"encoding/json"
 	"errors"
 	"fmt"
+	"math"
 	"net/url"
 	"strings"
 
@@ -166,6 +167,21 @@ func runBU(cm map[string]any, res CaseResult, fail func(string, any, any, any) C
 		if v == "dup" {
 			s.AllOf = []*jsonschema.Schema{{Anchor: "dup"}}
 		}
+	case "minimum", "maximum", "exclusiveMinimum", "exclusiveMaximum", "multipleOf":
+		x := map[string]float64{"+Inf": math.Inf(1), "-Inf": math.Inf(-1), "NaN": math.NaN(), "-0": math.Copysign(0, -1),
+			"5e-324": 5e-324, "1.7976931348623157e308": math.MaxFloat64}[v]
+		switch f {
+		case "minimum":
+			s.Minimum = &x
+		case "maximum":
+			s.Maximum = &x
+		case "exclusiveMinimum":
+			s.ExclusiveMinimum = &x
+		case "exclusiveMaximum":
+			s.ExclusiveMaximum = &x
+		case "multipleOf":
+			s.MultipleOf = &x
+		}
 	case "$schema":
 		s.Schema = v
 	case "baseuri":
@@ -237,6 +253,9 @@ func runBU(cm map[string]any, res CaseResult, fail func(string, any, any, any) C
 		if err == nil {
 			verr := rs.Validate(map[string]any{"a": 1.0})
 			rs.Validate("x")
+			for _, in := range []any{1.0, 0.0, -1.5, json.Number("1e400"), []any{1.0, "x"}, math.MaxFloat64} {
+				rs.Validate(in)
+			}
 			if op == "validate" && verr == nil {
 				return fail("accepts-malformed", conc, "Validate refuses an unsupported $schema", "nil")
 			}
